@@ -19,7 +19,8 @@ import traceback
 
 VERIF = os.path.dirname(os.path.dirname(os.path.abspath(__file__)))
 REPO = os.path.abspath(os.environ.get("PYAB_REPO", "/repo"))
-EVIDENCE_DIR = os.path.join(VERIF, "evidence")
+# evidence of runs against a scratch copy (mutants, seeded changes) never overwrites the evidence of /repo itself
+EVIDENCE_DIR = os.path.join(VERIF, "evidence") if REPO == "/repo" else os.path.join("/tmp", "pyab_scratch_evidence")
 REPLAY_DIR = os.path.join(VERIF, "replays")
 NCPU = int(os.environ.get("VERIF_JOBS", "0")) or min(16, os.cpu_count() or 1)
 
